@@ -70,6 +70,7 @@ static struct {
 static uint8_t vs_stacks[VS_MAXT][VS_STACK] __attribute__((aligned(64)));
 static vs_optab_entry vs_tab[128]; static int vs_ntab;
 
+void (*vs_plain_write_hook)(int ctx, const char *region, size_t offset);
 int vs_optab(const vs_optab_entry **tab) { *tab = vs_tab; return vs_ntab; }
 int vs_tracing(void) { return V.tracing; }
 
@@ -283,7 +284,7 @@ static inline void vs_plain(const void *addr, size_t n, int is_write, int is_ato
 {
 	vs_reg *r = vs_find(addr);
 	if (!r) return;
-	if (!is_atomic && V.opt->fine_grained && r->kind == VS_SHARED && !V.in_setup && !V.in_sched) vs_sched_point(NULL);
+	if (!is_atomic && V.opt->fine_grained && r->kind == VS_SHARED && !V.in_setup && !V.in_sched) { V.st->fine_points++; vs_sched_point(NULL); }
 	vs_ctx *c = vs_curctx();
 	vs_ctx *hc = vs_hbctx(c); int me = (int)(hc - V.ctx);
 	size_t off = (size_t)((const uint8_t *)addr - r->p);
@@ -292,7 +293,12 @@ static inline void vs_plain(const void *addr, size_t n, int is_write, int is_ato
 		V.st->plain_accesses++;
 		if (!is_write) { uint64_t v = 0; memcpy(&v, addr, n > 8 ? 8 : n); if (r->kind == VS_SHARED) vs_observe(c, addr, n, v); vs_fold(c, 0x5200 + off * 31 + ((uint64_t)r->kind << 50)); vs_fold(c, v);
 			for (size_t i = 8; i < n; i += 8) { v = 0; memcpy(&v, (const uint8_t *)addr + i, n - i > 8 ? 8 : n - i); vs_fold(c, v); } }
-		else if (r->kind == VS_SHARED) vs_observe(c, NULL, 0, 0);	/* marker: a write that observed nothing */
+		else if (r->kind == VS_SHARED) {
+			/* a store is progress too: two scheduling points separated only by a store of an unchanged value must not hash alike */
+			vs_fold(c, 0x5700 + off * 31);
+			vs_observe(c, NULL, 0, 0);	/* marker: a write that observed nothing */
+			if (vs_plain_write_hook && !V.in_setup) vs_plain_write_hook((int)(c - V.ctx), r->name, off);
+		}
 	}
 	if (r->kind != VS_SHARED) return;
 	uint32_t now = hc->vc.c[me];
